@@ -113,15 +113,20 @@ fn process_create_event(
     paths: &[PathBuf],
 ) -> Option<SourceFileEvent> {
     match create_kind {
-        // Note: maybe we should add CreateKind::Folder as well. Need a confirmation
-        // that move folder from outside a watch directory could fire a create event.
-        // Now it's always Modify(Name(Any)) i.e. Rename
-        CreateKind::File => {
+        // A new folder can already contain files by the time we are told about it (cp -r,
+        // git checkout, unzip): the watcher only starts to watch the folder after it has seen
+        // this event, so there are no events for those files. Hence a created folder is read
+        // like a modified one.
+        CreateKind::File | CreateKind::Folder => {
             if paths.len() != 1 {
                 panic!(
-                    "File create event should contain exactly one file. \
+                    "Create event should contain exactly one path. \
                     This is indicative of a bug in Isograph."
                 )
+            }
+            if matches!(create_kind, CreateKind::Folder) && !paths[0].is_dir() {
+                // already gone (or replaced) again
+                return None;
             }
             categorize_changed_file_and_filter_changes_in_artifact_directory(config, &paths[0])
                 .map(|file_kind| (SourceEventKind::CreateOrModify(paths[0].clone()), file_kind))
